@@ -156,6 +156,9 @@ OPTSETS = {
     # refusing it included, nothing is written outside the output directory
     "pages-outside": dict(page_dir="pages"),
     "pages-outside-abs": dict(page_dir="pages"),
+    # ... and a copy_subdir entry that leads out of the page directory
+    "copy-subdir-outside": dict(page_dir="pages"),
+    "copy-subdir-outside-project": dict(page_dir="pages", copy_subdir="../../sibling/keep"),
     "project-copy-subdir": dict(page_dir="pages", copy_subdir="pages/img"),
     "nosrc": dict(incl_src="false"),
     "externalize": dict(externalize="true"),
@@ -175,6 +178,8 @@ def make_sandbox(placement, optset=None):
     if optset == "pages-outside":
         (root / "proj" / "pages" / "index.md").write_text("title: Guide\nordered_subpage: img/../../../sibling/guide/more.md\n                 ../notes_outside.md\n\nTop [leaf](leaf.html)\n")
         (root / "proj" / "notes_outside.md").write_text("title: Notes\n\nnotes kept beside the page directory\n")
+    if optset == "copy-subdir-outside":
+        (root / "proj" / "pages" / "index.md").write_text("title: Guide\ncopy_subdir: img\n             ../../sibling/keep\n             ../media\n\nTop [leaf](leaf.html)\n")
     if optset == "pages-outside-abs":
         (root / "proj" / "pages" / "index.md").write_text(f"title: Guide\nordered_subpage: {root}/sibling/guide/more.md\n\nTop [leaf](leaf.html)\n")
     os.symlink("../sibling", root / "proj" / "link_out")
@@ -328,7 +333,7 @@ def run_case(st: Stats, placement, optset, fail_at):
                 st.violation("mutating-event-outside-output", stratum, dict(feats, event=event, where=rel.split(os.sep)[0] + "/" + (rel.split(os.sep)[1] if os.sep in rel else "")),
                              inp, dict(event=event, path=rel), "only paths inside output_dir / graph_dir are created, changed or deleted")
                 break
-        if fail_at is None and err is not None and not optset.startswith("pages-outside"):
+        if fail_at is None and err is not None and not optset.startswith(("pages-outside", "copy-subdir-outside")):
             bad += 1
             st.violation("run-failed-without-fault", stratum, feats, inp, repr(err)[:300] + log[-200:], "run completes")
     after = snapshot_outside(root, ([] if refuse else [out_res]) + [proj / "project.md"])
@@ -395,7 +400,7 @@ def main(tier, replay_path=None):
     core.use_repo()
     if tier == "quick":
         combos = [(p, o) for p in PLACEMENTS for o in ("default",)] + [(p, o) for p in PLACEMENTS if PLACEMENTS[p][3] for o in ("force", "force+pages")] + [(p, "everything") for p in ("sibling", "via-symlink", "dotdot", "stale-output")] + \
-                 [("sibling", o) for o in OPTSETS] + [(p, o) for p in ("nested-new", "dotdot", "inside-src") for o in ("pages-outside", "pages-outside-abs")] + [(p, o) for p in PLACEMENTS if p.startswith("graphdir-") for o in ("graphs", "everything")]
+                 [("sibling", o) for o in OPTSETS] + [(p, o) for p in ("nested-new", "dotdot", "inside-src") for o in ("pages-outside", "pages-outside-abs", "copy-subdir-outside", "copy-subdir-outside-project")] + [(p, o) for p in PLACEMENTS if p.startswith("graphdir-") for o in ("graphs", "everything")]
         fault_combos = [("graphdir-is-src", "graphs"), ("sibling", "default"), ("via-symlink", "everything"), ("stale-output", "default"), ("inside-src", "assets"), ("dotdot", "pages"),
                         ("sibling", "project-copy-subdir")]
     else:
